@@ -14,6 +14,10 @@ import (
 
 func main() {
 	dir := os.Args[1]
+	if len(os.Args) > 2 && os.Args[2] == "defs" {
+		probeDefs(dir)
+		return
+	}
 	opts := lib.AllChecksOptions()
 	for _, a := range os.Args[2:] {
 		if strings.HasPrefix(a, "-") {
